@@ -61,6 +61,10 @@ class FString(object):
     def candidates(self):
         actual_candidates = []
 
+        if len(self.node.values) == 0:
+            # An empty f-string
+            actual_candidates = ['f' + quote * 2 for quote in self.allowed_quotes]
+
         for quote in self.allowed_quotes:
             candidates = ['']
             debug_specifier_candidates = []
